@@ -630,7 +630,7 @@ func init() {
 	vc.Register(&vc.Check{
 		ID: "C07", Title: "State transition is deterministic across replicas, re-execution and restart", Level: "exploration",
 		Rule: "one case = one adversarial history (36/110 blocks: random locking requests incl. unknown validators/tokens, every 4th block a lock batch over 3..6 validators with one failing entry in shuffled order, every 5th block valid/invalid/malformed relayer messages incl. a deposit batch with four headers and items that are wrong in different ways, evidence, churn) recorded once on a primary and re-executed by replicas: " +
-			"R1 fresh node in the same process, R2 another OS process with GOMAXPROCS=1, R3 another process built with the race detector at GOMAXPROCS=16, R4 a goleveldb node closed and reopened before every block, R5 every block finalised, crashed before Commit, reopened and finalised again (blocks driving the map-ordered loops: 16 such rounds), R6 (every second history) a chain of OS processes on one goleveldb directory, each killing itself with SIGKILL at a planned crash point (before FinalizeBlock, between FinalizeBlock and Commit, 0-6000 us into Commit, right after Commit) and the next one continuing from whatever the disk holds - the height found after a kill must lie between the last height whose Commit had returned and the last finalised height; " +
+			"R1 fresh node in the same process, R2 another OS process with GOMAXPROCS=1, R3 another process built with the race detector at GOMAXPROCS=16, R4 a goleveldb node closed and reopened before every block, R5 every block finalised, crashed before Commit, reopened and finalised again (blocks driving the map-ordered loops: 16 such rounds), R6 (every second history) a chain of OS processes on one goleveldb directory, each killing itself with SIGKILL at a planned crash point (before FinalizeBlock, between FinalizeBlock and Commit, 0-6000 us into Commit, right after Commit) and the next one continuing from whatever the disk holds - the height found after a kill must lie between the last height whose Commit had returned and the last finalised height, R7 (every third history) a process built with the race detector that executes the blocks while other goroutines check transactions, simulate them (handlers included) and answer queries - a race report whose access is goat's own and that involves FinalizeBlock/Commit is a violation; " +
 			"compared per height: app hash, every tx's code/codespace/data/gas wanted/gas used, validator updates as a set, engine calls (method + arguments). Replicas start >= 1.1 s after the primary; every fourth history runs on the machine's clock (block time = wall clock at proposal, unlock/exit/jail/election/evidence periods of 150-600 ms). Non-trivial = a block with a failing transaction, a hot lock batch or >= 2 validators leaving; distinct = (failing txs, hot, leaving, txs).",
 		Assume: []string{"no clock virtualisation for Go binaries here: dependence on the node's clock is provoked by running every fourth history on the wall clock with periods of a few hundred milliseconds and the replicas seconds later; a dependence on clock fields coarser than that delay is out of reach", "map-order dependence is exposed only with the probability Go's per-loop randomisation gives: >= 17 executions of every hot block"},
 		Cases:  func(tier string) int { return map[string]int{"quick": 12, "thorough": 80}[tier] },
